@@ -83,6 +83,13 @@ def cases(tier, seed):
                     if tier == "quick" and x[0] == "project_edge" and y[0] == "project_edge" and not (set(x[1:3]) & set(y[1:3])):
                         continue
                     out.append({"part": "C", "frame": fr, "calls": [x, y]})
+            # the same on a loft whose four bottom edges share ONE Project object, and with one label for every call
+            for x in calls1:
+                out.append({"part": "C", "frame": fr, "calls": [x], "base": "shared_project"})
+                for y in calls1:
+                    if x is not y and (x[0], y[0]) != ("project_edge", "project_edge") and x[1] in ("bottom", "front", "left", 0, 1) and (tier == "thorough" or y[1] in ("bottom", "right", 1, 2)):
+                        out.append({"part": "C", "frame": fr, "calls": [x, y], "base": "shared_project"})
+                        out.append({"part": "C", "frame": fr, "calls": [x, y], "same_label": True})
             if tier == "thorough":
                 sides_e = [["project_side", s, True, True] for s in SIDES]
                 for x, y, z in itertools.permutations(sides_e, 3):
@@ -199,14 +206,18 @@ def run_part_a(case):
 
 
 # ----------------------------------------------------------------------------
-def make_loft(frame):
+def make_loft(frame, base=None):
     import classy_blocks as cb
 
     pts = []
     for k, (x, y, z) in enumerate(bm.CORNER_XYZ):
         pts.append(np.array([x * 1.2, y * 0.9, z * 1.1]) + 0.08 * jitter_vec(k + 3))
     pts = frame_apply(FRAMES[frame], pts)
-    loft = cb.Loft(cb.Face(pts[:4]), cb.Face(pts[4:]))
+    if base == "shared_project":
+        # the Face docstring's own idiom: ONE Project object for the four edges of the bottom face
+        loft = cb.Loft(cb.Face(pts[:4], [cb.Project("base")] * 4), cb.Face(pts[4:]))
+    else:
+        loft = cb.Loft(cb.Face(pts[:4]), cb.Face(pts[4:]))
     for a in range(3):
         loft.chop(a, count=1)
     return loft, np.array(pts)
@@ -360,15 +371,22 @@ def run_part_b(case):
 
 def run_part_c(case):
     """a history of addressing calls with distinct labels; expected = union of what each call addresses"""
-    loft, pts = make_loft(case["frame"])
+    loft, pts = make_loft(case["frame"], case.get("base"))
     coords = {"frame": case["frame"], "calls": case["calls"]}
+    for key in ("base", "same_label"):
+        if case.get(key):
+            coords[key] = case[key]
     violations = []
     faces = {}
     edges = {}
     corners = {}
     expect_error = False
+    if case.get("base") == "shared_project":
+        for ed in bm.EDGES[:2] + [(1, 2), (0, 3)]:
+            if set(ed) <= {0, 1, 2, 3}:
+                edges.setdefault(frozenset(ed), []).append("base")
     for k, call in enumerate(case["calls"]):
-        lab = f"g{k}"
+        lab = "g" if case.get("same_label") else f"g{k}"
         if call[0] == "project_side":
             _, side, e, p = call
             faces[side] = lab
@@ -388,7 +406,7 @@ def run_part_c(case):
         expect_error = True
     try:
         for k, call in enumerate(case["calls"]):
-            lab = f"g{k}"
+            lab = "g" if case.get("same_label") else f"g{k}"
             if call[0] == "project_side":
                 loft.project_side(call[1], lab, edges=call[2], points=call[3])
             elif call[0] == "project_edge":
@@ -419,7 +437,8 @@ def run_part_c(case):
         diff = {k: (got_edges.get(k), want_edges.get(k)) for k in set(got_edges) | set(want_edges) if got_edges.get(k) != want_edges.get(k)}
         violations.append({"clause": "sequence-edges", "coords": coords, "detail": f"edge (corner pair): (written labels, declared labels) = {diff}"})
     got_pts = {c_of[i]: sorted(v["project"]) for i, v in enumerate(d["vertices"]) if v["project"]}
-    want_pts = {c: sorted(v) for c, v in corners.items()}
+    # (a corner is projected to a SET of surfaces: the same label declared through two sides is one surface)
+    want_pts = {c: sorted(set(v)) for c, v in corners.items()}
     if got_pts != want_pts:
         violations.append({"clause": "sequence-corners", "coords": coords, "detail": f"written {got_pts}, declared {want_pts}"})
     return {"violations": violations, "outcome": "C:" + "+".join(c[0] for c in case["calls"]), "execs": 1, "states": 1, "transitions": len(case["calls"]), "nontrivial": True}
